@@ -217,7 +217,10 @@ Proof.
               hp_out_eqb out (hp_spec_out (fun z : Z => z) (mq_spec2 spec btw) host path user)) &&
              C06_holds_http (mq_spec2 spec btw) (mq_trace_http st' script)) = true).
     rewrite <- Eo at 1. rewrite mq_out_refl. simpl. apply IH; [exact Hinv'|].
-    cbn [hp_step] in S. rewrite (mq_roundtrip_routes _ _ _ _ _ _ _ S). apply mq_hsim_reg_step. exact Hsim.
+    assert (Hroutes : hp_routes st' = hp_routes (hp_reg_step st btw)).
+    { cbn [hp_step] in S. destruct (hp_routed st host path user);
+        [exact (mq_roundtrip_routes _ _ _ _ _ _ _ S)|inversion S; subst; reflexivity]. }
+    rewrite Hroutes. apply mq_hsim_reg_step. exact Hsim.
   - assert (Hr : hp_routes st' = hp_routes st).
     { apply (hq_traffic_routes [HConnect chost cuser]); [constructor; [exact I|constructor]|].
       simpl. simpl in S. rewrite S. reflexivity. }
